@@ -4,7 +4,7 @@ import os
 import shutil
 
 from mc import core, tf, world
-from mc.ref import bencode
+from mc.ref import bencode, model
 
 MIN = 16384
 
@@ -298,7 +298,9 @@ class PieceLenCheck:
             # the payload in several on-disk forms; the choice is a function
             # of the payload's size alone, so it must be monotone over the
             # union of all forms (a form that is under-counted shows up as a
-            # decrease against a smaller payload in another form)
+            # decrease against a smaller payload in another form).  The size
+            # is taken from the metafile's own file list, so a tree that
+            # leaves some entries out consistently is not blamed here.
             sizes = [0, 1, 16384000 - 1, 16384000, 16384001, 32768000,
                      32768001]
             if g.get("tier") == "thorough":
@@ -316,6 +318,7 @@ class PieceLenCheck:
                         continue
                     tf.reset_process_state()
                     out = os.path.join(parent, "o.torrent")
+                    ds = s
                     try:
                         if form.endswith("@cli"):
                             ver = {"TorrentFile": "1", "Assembler2": "2",
@@ -326,8 +329,11 @@ class PieceLenCheck:
                                 raw = f.read()
                         else:
                             raw = tf.create(creator, p, out, None)
-                        pl = bencode.decode(raw, strict=False)[b"info"][
-                            b"piece length"]
+                        meta = bencode.decode(raw, strict=False)
+                        pl = meta[b"info"][b"piece length"]
+                        # the payload as the metafile itself describes it
+                        ds = sum(ln for _p, ln, pad, _l in
+                                 model.payload_layout(meta)[2] if not pad)
                     except Exception as e:  # noqa
                         pl = "raised:" + type(e).__name__
                     shutil.rmtree(parent, ignore_errors=True)
@@ -337,7 +343,7 @@ class PieceLenCheck:
                     res.validated += 1
                     ok = isinstance(pl, int) and MIN <= pl <= 1 << 24 and \
                         pl & (pl - 1) == 0
-                    lower = [x for x in seen if x[0] <= s and ok and
+                    lower = [x for x in seen if x[0] <= ds and ok and
                              isinstance(x[2], int) and x[2] > pl]
                     if not ok or lower:
                         res.violation(
@@ -347,7 +353,7 @@ class PieceLenCheck:
                             {"got": pl, "smaller-payload-got-more": lower[:2]})
                     else:
                         res.outcomes["ok"] += 1
-                    seen.append((s, form, pl))
+                    seen.append((ds, form, pl))
             return res
         raise ValueError(kind)
 
